@@ -71,12 +71,21 @@ func (c *c05Case) files() (Files, map[string]any) {
 	}
 	body := `<div class="comp"><i class="pa">{{ a }}</i><i class="ta">{{ a | type }}</i><i class="pb">{{ b }}</i><i class="po">{{ o }}</i>`
 	if c.Shape == "nested" {
-		body += `<template include="d.vuego" :x="a"></template><i class="lx">{{ x }}</i>`
+		if c.Short {
+			// the shorthand form of the inner include, written inside the component file
+			body += `<inner-d :x="a"></inner-d><i class="lx">{{ x }}</i>`
+		} else {
+			body += `<template include="d.vuego" :x="a"></template><i class="lx">{{ x }}</i>`
+		}
+	}
+	if c.Shape == "slotinc" {
+		body += `<span class="sl"><slot></slot></span>`
 	}
 	body += `</div>`
 	// what follows the component's <template> root is part of the component too
 	f := Files{c05Comp: fm + `<template` + tattr + `>` + body + `</template><i class="tail">{{ a }}</i>`}
 	f["d.vuego"] = `<div class="inner"><i class="dx">{{ x }}</i><i class="da">{{ a }}</i></div>`
+	f["components/InnerD.vuego"] = f["d.vuego"]
 
 	props := func(aForm string) string {
 		var p []string
@@ -114,6 +123,14 @@ func (c *c05Case) files() (Files, map[string]any) {
 	switch c.Shape {
 	case "single", "nested":
 		page = `<div id="inc">` + inc(c.AForm) + `</div>` + leak
+	case "slotinc": // an include written inside the slot content of the include
+		inner := `<template include="d.vuego" :x="o"></template>`
+		if c.Short {
+			inner = `<inner-d :x="o"></inner-d>`
+		}
+		full := inc(c.AForm)
+		full = full[:strings.LastIndex(full, "</")] + inner + full[strings.LastIndex(full, "</"):]
+		page = `<div id="inc">` + full + `</div>` + leak
 	case "iftrue": // a conditional include is an include
 		cond = ` v-if="o"`
 		page = `<div id="inc">` + inc(c.AForm) + `</div>` + leak
@@ -326,6 +343,9 @@ func (c *c05Case) Run(ctx *core.Ctx) {
 	}
 	chk("prop-value", "pb", inc, rep(wb))
 	chk("includer-visible", "po", inc, rep("OUT"))
+	if c.Shape == "slotinc" {
+		chk("include-in-slot-content", "dx", inc, rep("OUT"))
+	}
 	if c.Shape == "nested" {
 		chk("nested-prop", "dx", inc, rep(c05Str(wa)))
 		chk("nested-visible", "da", inc, rep(c05Str(wa)))
@@ -372,7 +392,7 @@ func init() {
 	core.Register(&core.Check{
 		ID:    "C05",
 		Level: "exploration",
-		Rule: "every combination of prop a {omitted, static, interpolated, :bound / v-bind: to 11 values of every JSON-like type incl. 0/false/\"\"/nil/undefined} x prop b {omitted, static, bound} x includer defines a / not x component front-matter defines a / defines it as null / not x :required {none, a, 'a, b', repeated, :require} x shape {single, twice with different props, inside v-for, nested include, include carrying v-if, include carrying v-else} x {explicit include, registered shorthand}; " +
+		Rule: "every combination of prop a {omitted, static, interpolated, :bound / v-bind: to 11 values of every JSON-like type incl. 0/false/\"\"/nil/undefined} x prop b {omitted, static, bound} x includer defines a / not x component front-matter defines a / defines it as null / not x :required {none, a, 'a, b', repeated, :require} x shape {single, twice with different props, inside v-for, nested include, include carrying v-if, include carrying v-else, include inside the slot content of the include} - the inner includes of the nested and slot shapes in shorthand form too - x {explicit include, registered shorthand}; " +
 			"oracle: reference scope model for the values and types printed inside, the includer's following siblings, error iff a required name was not provided, shorthand byte-identical. non-trivial = all",
 		Bounds:      map[string]string{"quick": "full product (include depth <= 2, fan-out <= 2)", "thorough": "same product"},
 		Assumptions: []string{"a required name that is visible from the includer's scope or the component's front-matter although the include does not pass it, and bindings of nil/undefined values, are unconstrained"},
@@ -404,7 +424,7 @@ func init() {
 					}
 				}
 			}
-			for _, shape := range []string{"single", "twice", "infor", "nested", "iftrue", "ifelse"} {
+			for _, shape := range []string{"single", "twice", "infor", "nested", "iftrue", "ifelse", "slotinc"} {
 				for _, short := range []bool{false, true} {
 					for _, a := range aForms {
 						for _, b := range []string{"omit", "static", "bound"} {
